@@ -27,8 +27,17 @@ SameCur(a, b) == IF a.tomb \/ b.tomb THEN a.tomb = b.tomb ELSE a = b
 SubDiff(st, sec, incl, u) ==
   IF u.res = "panic" THEN "-"
   ELSE IF ~Structural(st.p) THEN "-"
+  ELSE IF sec = "E" /\ u.s \notin {"next", "uncompress"} THEN "-"
+  ELSE IF sec = "E" /\ u.s = "uncompress" /\ st.v.mc /\ ~PolicyOK(st.p) THEN "-"
+  ELSE IF sec = "E" /\ u.s = "uncompress" THEN
+       LET pr == SubUncompressE(st) IN
+       IF u.res # "ok" THEN "uncompress through an option cursor: the transcription succeeds, the object reports " \o u.res \o " " \o u.e
+       ELSE IF pr.p # u.bytes THEN "uncompress through an option cursor: bytes differ from the transcription"
+       ELSE IF pr.v # ObsView(u.view) THEN "uncompress through an option cursor: bookkeeping differs from the transcription"
+       ELSE IF ~SameCur(pr.c, ObsCur(u.obs)) THEN "uncompress through an option cursor: cursor differs from the transcription"
+       ELSE ""
   ELSE IF u.s = "next" THEN
-       LET pr == SubNext(st, sec, incl) IN
+       LET pr == IF sec = "E" THEN SubNextE(st) ELSE SubNext(st, sec, incl) IN
        IF pr.ok # (u.res = "ok") THEN "next: the transcription " \o (IF pr.ok THEN "yields a record" ELSE "ends the walk") \o ", the reader " \o (IF u.res = "ok" THEN "yields a record" ELSE "ends the walk")
        ELSE IF ~pr.ok THEN ""
        ELSE IF u.bytes # st.p THEN "next: bytes changed"
@@ -67,7 +76,7 @@ StepDiff(e) ==
   ELSE IF ~Structural(e.pre) THEN <<0, "">>
   ELSE LET o == e.o IN
   IF o.op = "cursor" THEN
-       IF ~e.has_first \/ o.sec = "E" THEN <<0, "">>            \* option cursors: judged by History only
+       IF ~e.has_first THEN <<0, "">>
        ELSE LET v0 == [ViewMC(e.pre, e.mc0) EXCEPT !.mc = e.mc0] IN
             Fold(e.subs, 1, [p |-> e.pre, v |-> v0, c |-> ObsCur(e.first)], o.sec, o.incl, 0)
   ELSE IF o.op \in {"insert", "insert_q"} THEN
